@@ -33,6 +33,7 @@ pub struct OracleState {
     /// C04: (dispatch-log length, finished count) at quiescent states in which every worker of the
     /// full rotation had spare capacity
     pub q_marks: Vec<(usize, usize)>,
+    pub forced_seen_at: Option<u64>,
 }
 
 impl OracleState {
@@ -57,6 +58,7 @@ impl OracleState {
             pause_seen: false,
             backoff_seen: false,
             q_marks: Vec::new(),
+            forced_seen_at: None,
         }
     }
 
@@ -573,9 +575,7 @@ pub fn at_quiescence(sim: &mut Sim) {
                 ));
             }
         }
-        if sim.o.eff_signal && sim.server.is_some() {
-            // Server future needs the 300 ms system-exit delay in signal mode: not judged here
-        }
+
         sh.ctx(|ctx| ctx.bump("probe.forced_stop_judged"));
     }
     if prop == "C01" && sim.o.stop_issued && sim.o.eff_graceful == Some(true) {
@@ -600,6 +600,21 @@ pub fn at_quiescence(sim: &mut Sim) {
                 sh.ctx(|ctx| ctx.bump("probe.queued_conn_released_on_shutdown"));
             }
         }
+    }
+    if prop == "C06" && sim.o.eff_graceful == Some(false) && sim.o.eff_signal && sim.server.is_some() && sim.o.forced_seen_at.is_none() {
+        // first quiescent state after the signal: the server has handled it by now (it was
+        // polled), what remains is the 300 ms system-exit delay
+        sim.o.forced_seen_at = Some(sim.now_ms());
+    } else if prop == "C06" && sim.o.eff_graceful == Some(false) && sim.o.eff_signal && sim.server.is_some() && sim.o.forced_seen_at.map_or(false, |t| sim.now_ms() >= t + 400) {
+        // SIGINT / SIGQUIT: forced, only the 300 ms system-exit delay may pass
+        sh.violate(
+            Violation::new(
+                "forced-waited",
+                format!("forced stop by signal, handled by {}ms: the Server future is still unresolved at quiescence at {}ms", sim.o.forced_seen_at.unwrap_or(0), sim.now_ms()),
+            )
+            .fact("signal", true),
+        );
+        return;
     }
     if sim.server.is_none() || !sh.accept_alive.get() || sim.o.stop_issued {
         return;
@@ -833,13 +848,25 @@ pub async fn drain_and_final(sim: &mut Sim) {
         let nslots = sh.workers.borrow().len();
         for s in 0..nslots {
             let conns = sh.conns.borrow();
-            let mut v: Vec<(u64, u64)> = conns
+            let mut v: Vec<(u64, u64, usize)> = conns
                 .iter()
-                .filter(|c| c.owner == Some(s) && c.calls > 0)
-                .map(|c| (c.dispatch_seq, c.accepted_seq))
+                .enumerate()
+                .filter(|(_, c)| c.owner == Some(s) && c.calls > 0)
+                .map(|(i, c)| (c.dispatch_seq, c.call_seq, i))
                 .collect();
             v.sort();
-            let _ = v;
+            for w in v.windows(2) {
+                if w[0].1 > w[1].1 {
+                    sh.violate(Violation::new(
+                        "queue-order",
+                        format!("on worker slot {s}, connection c{} was dispatched before c{} but served after it", w[0].2, w[1].2),
+                    ));
+                    return;
+                }
+            }
+            if v.len() >= 2 {
+                sh.ctx(|ctx| ctx.bump("probe.queue_order_checked"));
+            }
         }
         for (slot, p) in sim.o.pending_restart.iter().enumerate() {
             if let Some(l) = p {
@@ -1078,7 +1105,7 @@ pub fn required_probes(prop: &str, tier: Tier) -> Vec<&'static str> {
         "C04" => vec!["probe.rr_window_checked", "probe.rr_window_from_quiescence", "probe.bitset_runs"],
         "C05" => vec!["probe.backoff_armed", "probe.per_connection_error_handled", "cmd.pause", "cmd.resume"],
         "C06" => vec!["probe.stop_completed", "probe.graceful_stop_with_connections", "probe.forced_stop_with_connections", "probe.forced_stop_judged", "probe.second_stop"],
-        "C07" => vec!["probe.call_after_ready_round", "probe.service_restarted"],
+        "C07" => vec!["probe.call_after_ready_round", "probe.service_restarted", "probe.queue_order_checked"],
         "C08" => vec!["probe.send_failed_discovered", "probe.replacement_in_rotation", "probe.replacement_served"],
         _ => vec![],
     }
